@@ -177,7 +177,7 @@ def run_rotate(ck):
             c["id"] = 1000000 + i
         cases += cs
     outp = os.path.join(ck.work, "rotate.jsonl")
-    args = ["--seed", ck.seed, "--n", ck.n(700, 12000), "--out", outp]
+    args = ["--seed", ck.seed, "--n", ck.n(1000, 12000), "--out", outp]
     if not ck.quick():
         args += ["--exhaustive", 200]
     rc, out = ck.go_run("rotate", args)
@@ -195,19 +195,21 @@ def run_rotate(ck):
     ok_cases = [c for c in cases if c not in panics]
 
     mism, viol = [], []
-    # shard by observed size (about 2500 logged calls per file)
-    shard, cur, k = [], 0, 0
+    # shard by observed size (about 3000 logged calls per file), evaluated in parallel
+    shard, cur = [], 0
     shards = []
     for c in ok_cases:
         shard.append(c)
         cur += case_size(c)[1]
-        if cur > 9000:
+        if cur > 3000:
             shards.append(shard)
             shard, cur = [], 0
     if shard:
         shards.append(shard)
-    for k, sh in enumerate(shards):
-        m, v, out = eval_cases(ck, "C19_rotate_%d" % k, sh)
+    from concurrent.futures import ThreadPoolExecutor
+    with ThreadPoolExecutor(max_workers=6) as ex:
+        results = list(ex.map(lambda ks: eval_cases(ck, "C19_rotate_%d" % ks[0], ks[1]), enumerate(shards)))
+    for m, v, out in results:
         if m is None:
             ck.obligation("histories evaluated inside Coq", False, out[-1500:])
             return
@@ -250,6 +252,17 @@ def run_rotate(ck):
         nfault += sum(1 for r in c["runs"] if r["err"])
         if len(c["runs"]) >= 2 and alters >= 1:
             distinct.add(json.dumps(strip_obs(c)["runs"], sort_keys=True))
+    dur = {}
+    for c in cases:
+        for r in c["runs"]:
+            for pol in r["cfg"]["days"]:
+                ns = pol["ns"]
+                sec = abs(ns) // 10**9
+                k = ("zero-or-negative" if ns <= 0 else "beyond-int32" if sec > 2147483647 else "below-one-minute" if sec < 60
+                     else "below-one-day" if sec < 86400 else "one-day-or-more")
+                if ns % 10**9 != 0:
+                    k += "+fraction"
+                dur[k] = dur.get(k, 0) + 1
     ck.coverage["evaluations"] += len(cases)
     ck.coverage["distinct_nontrivial"] += len(distinct)
     ck.coverage["rule"] += ("histories of 1..6 Rotate runs on one database: random configurations (0-3 tiers, durations 1 s .. 292 years incl. "
@@ -257,7 +270,10 @@ def run_rotate(ck):
                             "changes/reverts between runs, faults at call indexes (with and without effect); fault-at-every-index families; legacy "
                             "settings layouts; non-trivial = >= 2 runs and >= 1 ALTER; distinct by content. ")
     ck.extra["input_distribution"] = {"classes": hist, "runs": nruns, "runs_ended_by_fault": nfault,
-                                      "logged_calls": sum(case_size(c)[1] for c in cases)}
+                                      "logged_calls": sum(case_size(c)[1] for c in cases),
+                                      "tier_durations": dur,
+                                      "with_storage_policy": sum(1 for c in cases for r in c["runs"] if r["cfg"]["policy"]),
+                                      "clustered": sum(1 for c in cases for r in c["runs"] if r["cfg"]["cluster"])}
     ck.add_samples([{"class": c["class"], "runs": [{"cfg": r["cfg"], "fault": r["fault"], "err": r["err"], "calls": len(r["log"])}
                                                     for r in c["runs"]]} for c in cases[:4]])
 
